@@ -20,13 +20,15 @@ def shift_polya(read_exons, exon_count, polya_pos):
         return polya_pos
 
     dist_to_polya = 0
+    polya_exon_found = False
     for i in range(exon_count):
         exon = read_exons[-i - 1]
         if exon[0] > polya_pos:
             continue
-        elif dist_to_polya == 0:
+        elif not polya_exon_found:
             # no exons counted yet
             dist_to_polya += polya_pos - exon[0]
+            polya_exon_found = True
         else:
             dist_to_polya += interval_len(exon)
     return read_exons[-exon_count - 1][1] + dist_to_polya
@@ -38,13 +40,15 @@ def shift_polyt(read_exons, exon_count, polyt_pos):
         return polyt_pos
 
     dist_to_polya = 0
+    polyt_exon_found = False
     for i in range(exon_count):
         exon = read_exons[i]
         if exon[1] < polyt_pos:
             continue
-        elif dist_to_polya == 0:
+        elif not polyt_exon_found:
             # no exons counted yet
             dist_to_polya += exon[1] - polyt_pos
+            polyt_exon_found = True
         else:
             dist_to_polya += interval_len(exon)
     return read_exons[exon_count][0] - dist_to_polya
